@@ -160,12 +160,10 @@ def execute_orders(case):
     order = list(secs)
     perms = list(itertools.permutations(order))[case["lo"] : case["hi"]]
 
-    class M(dict):
-        root = "x"
 
     def parse(o):
         text = "\n".join(l for s in o for l in secs[s]) + "\n"
-        m = M({"summary.txt": text.encode()})
+        m = harness.mem_mapper({"summary.txt": text.encode()})
         return flatten_group(open_summary(m, "summary.txt"))
 
     ref = parse(order)
